@@ -8,12 +8,23 @@ from common import assemble, main_protocol
 from vf.specs import isa65816 as isa
 
 
+def blob_path(n):
+    import os
+    import tempfile
+    path = os.path.join(tempfile.gettempdir(), f"vfC05-blob{n}.bin")
+    with open(path, "wb") as f:
+        f.write(bytes((7 * k + 1) & 0xFF for k in range(n)))
+    return path
+
+
 def build(case):
     mn, rom, start, reloc, d, style = case["mn"], case["rom"], case["start"], case["reloc"], case["d"], case["style"]
     run = reloc if reloc is not None else start
     lines = ([case["pre"]] if case.get("pre") else []) + [f"*={start:#x}"]
     if reloc is not None:
         lines.append(f"@={reloc:#x}")
+    if case.get("blob"):
+        lines.append(f".incbin '{blob_path(case['blob'])}'")   # an included binary BEFORE the branch and its label: both sit len(blob) bytes further
     if style == "numeric":
         lines.append(f"{mn} {run + 2 + d:#x}")
     elif style == "label" and d >= 0:
@@ -40,6 +51,8 @@ def check(case):
         return None if must_reject else f"in-range branch (d={d}) rejected: {(res['error'] or res['exc'])[:80]}"
     blocks = res["blocks"][1:] if case.get("pre") else res["blocks"]
     got = b"".join(b for a, b in blocks)
+    if case.get("blob"):
+        got = got[case["blob"]:]
     if case["style"] == "label" and d < 0:
         got = got[-2:]
     else:
@@ -78,6 +91,12 @@ def gen(tier, rng):
         for d in (-2, 0, 1, 127, 128, 200):
             for style in ("numeric", "label"):
                 yield {"mn": "bra", "rom": rom, "start": start, "reloc": None, "d": d, "style": style, "pre": pre}
+    # an .incbin in front of the branch and of the label it targets (labels after an included binary are further down by its length, in every pass)
+    for rom, start, reloc in (("low_rom", 0x008200, None), ("low_rom", 0x008400, 0x018400), ("high_rom", 0xC00200, None)):
+        for mn in mns:
+            for d in (-12, -2, 0, 5, 127):
+                for n in (1, 5, 300):
+                    yield {"mn": mn, "rom": rom, "start": start, "reloc": reloc, "d": d, "style": "label", "blob": n}
     # RAM run addresses (after @=) and RAM targets
     for mn in mns:
         for d in (-5, 0, 14, 100):
